@@ -1009,3 +1009,53 @@ func touch(e *E) {
 `}}},
 	}}
 }
+
+// IgnoreUnderLineDirectives: trailing @ignore comments on lines whose reported position a //line directive has moved
+// — to a smaller line number, to a larger one, beyond the end of the file, into another file name. A trailing
+// comment covers its own SOURCE line, whatever that line is called; its neighbours stay reported.
+func IgnoreUnderLineDirectives() *prog.Program {
+	return &prog.Program{Pkgs: []prog.Pkg{
+		{Path: "ex.com/m/lib", Files: []prog.File{{Name: "lib.go", Src: `package lib
+
+// T is immutable.
+// @immutable
+// @constructor NewT
+type T struct{ F, G int }
+
+func NewT() *T { return &T{} }
+`}}},
+		{Path: "ex.com/m/gen", Files: []prog.File{{Name: "down.go", Src: `package gen
+
+import "ex.com/m/lib"
+
+func down(t *lib.T) {
+	t.F = 1 // want IMM01
+	t.F = 2 // want IMM01
+	t.F = 3 // want IMM01
+	t.F = 4 // want IMM01
+//line down.y:3
+	t.F = 5 // @ignore IMM01
+	t.F = 6 // wantat down.y:4 IMM01
+//line down.go:2
+	t.G++ // @ignore IMM
+	_ = lib.T{} // wantat down.go:3 CTOR01
+}
+`}, {Name: "up.go", Src: `package gen
+
+import "ex.com/m/lib"
+
+func up(t *lib.T) {
+	t.G = 1 // want IMM01
+//line up.y:20
+	t.G = 2 // @ignore IMM01
+	t.G = 3 // wantat up.y:21 IMM01
+//line up.go:5000
+	_ = lib.T{} // @ignore CTOR01
+	_ = new(lib.T) // wantat up.go:5001 CTOR02
+//line ../lib/lib.go:4
+	t.F += 1 // @ignore ALL
+	t.F -= 1 // wantat ../lib/lib.go:5 IMM02
+}
+`}}},
+	}}
+}
